@@ -190,6 +190,10 @@ type WorkerOpts struct {
 	// CrashIsViolation: a dying worker is a violation of the
 	// property (otherwise inconclusive harness failure).
 	CrashIsViolation bool
+	// CPULimitIsViolation: exhausting CPUSeconds (a CPU-time bound that
+	// is load independent and far above the case's normal cost) in a
+	// sub-case is reported as non-termination, a violation.
+	CPULimitIsViolation bool
 	// Race: run workers from the -race binary.
 	Race bool
 	// Env adds environment variables for the workers.
@@ -649,6 +653,20 @@ func runBatch(ck Check, o WorkerOpts, exe, scratch string, bi int, b batch, resu
 			switch {
 			case timedOut:
 				pendingNotes[inflight] = append(pendingNotes[inflight], fmt.Sprintf("sub-case %d: wall-clock watchdog", lastSub))
+			case isRlimitCPU(werr) && o.CPULimitIsViolation:
+				// Do not resume: further sub-cases may hang as well and each
+				// costs the full CPU budget. The case ends here, violated.
+				r := Result{Idx: inflight, Crashed: true, Verdict: Violated, Sig: "non-termination|cpu-limit",
+					Detail: fmt.Sprintf("sub-case %d did not finish within the CPU-time limit of %d s (the whole tier normally needs a fraction of that): %s", lastSub, o.CPUSeconds, tail(firstLines(out, 6), 800))}
+				for _, sv := range append(earlierV[inflight], pending[inflight]...) {
+					r.More = append(r.More, sv)
+				}
+				results[inflight] = r
+				done[inflight] = true
+				for pos < len(b.cases) && done[b.cases[pos].Idx] {
+					pos++
+				}
+				continue
 			case isRlimitCPU(werr):
 				pendingNotes[inflight] = append(pendingNotes[inflight], fmt.Sprintf("sub-case %d: RLIMIT_CPU", lastSub))
 			case oom && strings.Contains(out, "[declared-size-above-cap]"):
@@ -671,6 +689,10 @@ func runBatch(ck Check, o WorkerOpts, exe, scratch string, bi int, b batch, resu
 			case timedOut:
 				r.Verdict = Inconclusive
 				r.Detail = "wall-clock watchdog fired; output tail: " + tail(out, 1500)
+			case isRlimitCPU(werr) && o.CPULimitIsViolation:
+				r.Verdict = Violated
+				r.Sig = "non-termination|cpu-limit"
+				r.Detail = fmt.Sprintf("the case did not finish within the CPU-time limit of %d s: %s", o.CPUSeconds, tail(firstLines(out, 6), 800))
 			case isRlimitCPU(werr):
 				r.Verdict = Inconclusive
 				r.Detail = "RLIMIT_CPU hit: " + tail(out, 500)
@@ -730,7 +752,7 @@ func runBatch(ck Check, o WorkerOpts, exe, scratch string, bi int, b batch, resu
 func isRlimitCPU(err error) bool {
 	if ee, ok := err.(*exec.ExitError); ok {
 		if ws, ok := ee.Sys().(syscall.WaitStatus); ok && ws.Signaled() {
-			return ws.Signal() == syscall.SIGXCPU || ws.Signal() == syscall.SIGKILL && false
+			return ws.Signal() == syscall.SIGXCPU
 		}
 	}
 	return false
